@@ -13,7 +13,7 @@ RULE = ("all valid maps with all sign patterns for N=1 (24) and N=2 (11520) x ev
 ASSUMPTIONS = ["stabilizer lists handed to stabilizer_state are independent, commuting, Hermitian (the documented domain)",
                "dense oracle: rho = 2^-r prod (1+S_a)/2; map unitary built constructively for N<=3"]
 REQUIRED_SUBS = ["to_state", "to_state.dense", "roundtrip", "ctor.zero", "ctor.one", "ctor.ghz", "ctor.mixed", "to_qutip",
-                 "sstate.value", "sstate.rank", "sstate.format.*", "sstate.raises"]
+                 "sstate.value", "sstate.rank", "sstate.format.*", "sstate.raises", "density_matrix", "ctor.fresh"]
 
 
 def shards(tier):
@@ -196,6 +196,13 @@ def run_ctor(shard, rec, B):
             g, p, r = B.state(S)
             rec.check("ctor.random_clifford", not O.tableau_problems(g, p, r) and r == (r0 or 0), [N, r0, t], True,
                       observed={"rows": _show(g, p), "r": r, "problems": O.tableau_problems(g, p, r)})
+        # the Pauli expansion exported by density_matrix (dense for N<=5, structural for groups up to 2^12)
+        if t % 6 == 0:
+            from ..dmcheck import check_dm
+            k = [1, 3, 8, 9, 10, 12][(t // 6) % 6] if B.name == "np" else [1, 3, 8, 9][(t // 6) % 4]
+            Nd = k + int(rng.integers(0, 3))
+            dg_, dp_, _ = O.random_tableau(rng, Nd, r=Nd - k, nrot=2 * Nd)
+            check_dm(rec, B, "density_matrix", dg_, dp_, Nd - k, rng, {"N": Nd, "r": Nd - k})
         # to_qutip of arbitrary signed mixed states
         if N <= 4:
             tg, tp, r = O.random_tableau(rng, N)
